@@ -87,6 +87,62 @@ pub fn walk<'a, A: Cx>(mut s: &'a SeqSlice<A>, path: &Value) -> &'a SeqSlice<A> 
     s
 }
 
+/// `items` delivered through an iterator adaptor whose size hint is NOT exact: junk elements are
+/// interleaved and dropped again by the adaptor, so the consumer sees exactly `items` while
+/// `size_hint()` promises more (or nothing).  `f` receives the iterator.
+pub fn with_loose_iter<T: Copy + 'static, R>(items: &[T], junk: usize, adaptor: &str, f: &mut dyn FnMut(&mut dyn Iterator<Item = T>) -> R) -> R {
+    // (value, keep) pairs: junk spread evenly, at least one at the very end and one at the start
+    let filler = items.first().copied();
+    let mut pairs: Vec<(Option<T>, bool)> = Vec::new();
+    let every = if junk == 0 { usize::MAX } else { (items.len() / junk).max(1) };
+    let mut left = junk;
+    if left > 0 {
+        pairs.push((filler, false));
+        left -= 1;
+    }
+    for (i, x) in items.iter().enumerate() {
+        pairs.push((Some(*x), true));
+        if left > 1 && (i + 1) % every == 0 {
+            pairs.push((filler, false));
+            left -= 1;
+        }
+    }
+    for _ in 0..left {
+        pairs.push((filler, false));
+    }
+    match adaptor {
+        "filter" => f(&mut pairs.iter().filter(|p| p.1).map(|p| p.0.unwrap())),
+        "filter_map" => f(&mut pairs.iter().filter_map(|p| if p.1 { p.0 } else { None })),
+        "flat_map" => f(&mut pairs.iter().flat_map(|p| if p.1 { vec![p.0.unwrap()] } else { vec![] })),
+        "take_while" => {
+            // junk only at the end: everything after the first dropped element is junk
+            let mut v: Vec<(Option<T>, bool)> = items.iter().map(|x| (Some(*x), true)).collect();
+            for _ in 0..junk.max(1) {
+                v.push((filler, false));
+            }
+            f(&mut v.iter().take_while(|p| p.1).map(|p| p.0.unwrap()))
+        }
+        "skip_while" => {
+            let mut v: Vec<(Option<T>, bool)> = (0..junk.max(1)).map(|_| (filler, false)).collect();
+            v.extend(items.iter().map(|x| (Some(*x), true)));
+            f(&mut v.iter().skip_while(|p| !p.1).map(|p| p.0.unwrap()))
+        }
+        "chain" => {
+            let (a, b) = items.split_at(items.len() / 2);
+            f(&mut a.iter().copied().chain(b.iter().copied()))
+        }
+        "from_fn" => {
+            let mut i = 0;
+            f(&mut std::iter::from_fn(|| {
+                i += 1;
+                items.get(i - 1).copied()
+            }))
+        }
+        "exact" => f(&mut items.iter().copied()),
+        o => panic!("harness: adaptor {o}"),
+    }
+}
+
 struct ItBox {
     _own: Option<Box<dyn std::any::Any>>,
     it: Box<dyn Iterator<Item = Value>>,
@@ -151,7 +207,23 @@ impl<A: Cx> World<A> {
     fn with_src<R>(&self, src: &Value, f: &mut dyn FnMut(&SeqSlice<A>) -> R) -> R {
         let r = gu(src, "r");
         match gs(src, "base") {
-            "reg" => f(walk(self.reg(r), &src["path"])),
+            "reg" => {
+                // how the owned register is turned into a slice: Deref (default), AsRef or Borrow
+                let owned_ref: Option<&Seq<A>> = if r < NREG { self.regs[r].as_ref() } else { None };
+                let base: &SeqSlice<A> = match (src["acc"].as_str(), r < NREG) {
+                    (Some("asref"), true) => AsRef::<SeqSlice<A>>::as_ref(self.regs[r].as_ref().unwrap()),
+                    (Some("borrow"), true) => core::borrow::Borrow::<SeqSlice<A>>::borrow(self.regs[r].as_ref().unwrap()),
+                    (Some("refborrow"), true) => {
+                        // Borrow<SeqSlice> for &Seq
+                        let rr: &&Seq<A> = &owned_ref.unwrap();
+                        let b: &SeqSlice<A> = core::borrow::Borrow::<SeqSlice<A>>::borrow(rr);
+                        unsafe { &*(b as *const SeqSlice<A>) }
+                    }
+                    (Some("sliceasref"), _) => AsRef::<SeqSlice<A>>::as_ref(self.reg(r)),
+                    _ => self.reg(r),
+                };
+                f(walk(base, &src["path"]))
+            }
             "kmer" => {
                 let kv = self.kregs[r].expect("harness: k-mer register empty");
                 assert_eq!(self.kst[r], "usize", "harness: only usize k-mers deref");
@@ -357,6 +429,12 @@ impl<A: Cx> World<A> {
                         .iter()
                         .map(|&b| A::try_from_ascii(b).ok_or(ParseBioError::UnrecognisedBase(b)))
                         .collect::<Result<Seq<A>, ParseBioError>>(),
+                    // the text arrives through an iterator that drops interleaved junk bytes (e.g. line
+                    // breaks of a FASTA body): its size hint is an upper bound only
+                    "loosecollect" => with_loose_iter(&bytes, gu(op, "junk"), gs(op, "adaptor"), &mut |it| {
+                        it.map(|b| A::try_from_ascii(b).ok_or(ParseBioError::UnrecognisedBase(b)))
+                            .collect::<Result<Seq<A>, ParseBioError>>()
+                    }),
                     o => panic!("harness: entry {o}"),
                 };
                 match r {
@@ -381,6 +459,12 @@ impl<A: Cx> World<A> {
                     "extendtrait" => {
                         let mut s = Seq::<A>::new();
                         Extend::extend(&mut s, xs.iter().copied());
+                        s
+                    }
+                    "loosecollect" => with_loose_iter(&xs, gu(op, "junk"), gs(op, "adaptor"), &mut |it| it.collect::<Seq<A>>()),
+                    "looseextend" => {
+                        let mut s = Seq::<A>::new();
+                        with_loose_iter(&xs, gu(op, "junk"), gs(op, "adaptor"), &mut |it| s.extend(it));
                         s
                     }
                     "pushes" => {
@@ -454,7 +538,20 @@ impl<A: Cx> World<A> {
             "extend" => {
                 let d = gu(op, "dst");
                 let xs: Vec<A> = gsyms(&op["syms"]);
-                self.regs[d].as_mut().unwrap().extend(xs);
+                let r = self.regs[d].as_mut().unwrap();
+                match op["adaptor"].as_str() {
+                    None => r.extend(xs),
+                    Some(a) => {
+                        let trait_form = op["via"].as_str() == Some("trait");
+                        with_loose_iter(&xs, gu(op, "junk"), a, &mut |it| {
+                            if trait_form {
+                                Extend::extend(r, it)
+                            } else {
+                                r.extend(it)
+                            }
+                        })
+                    }
+                }
                 view(self.reg(d))
             }
             "clear" => {
@@ -609,11 +706,30 @@ impl<A: Cx> World<A> {
             "eq" => self.eq_pair(&op["x"], &op["y"]),
             "hash" => json!({"feed": self.feed_operand(&op["x"])}),
             "mapget" => {
-                let mut m: HashMap<Seq<A>, i64> = HashMap::new();
-                for (i, r) in op["keys"].as_array().unwrap().iter().enumerate() {
-                    m.insert(self.regs[r.as_u64().unwrap() as usize].as_ref().unwrap().clone(), i as i64);
-                }
-                let res = self.with_src(&op["q"], &mut |q| m.get(q).copied().unwrap_or(-1));
+                let keys: Vec<usize> = op["keys"].as_array().unwrap().iter().map(|r| r.as_u64().unwrap() as usize).collect();
+                let res = match op["via"].as_str().unwrap_or("owned") {
+                    "owned" => {
+                        let mut m: HashMap<Seq<A>, i64> = HashMap::new();
+                        for (i, &r) in keys.iter().enumerate() {
+                            m.insert(self.regs[r].as_ref().unwrap().clone(), i as i64);
+                        }
+                        self.with_src(&op["q"], &mut |q| m.get(q).copied().unwrap_or(-1))
+                    }
+                    "refkeys" => {
+                        // HashMap<&Seq, _> probed with a slice through Borrow<SeqSlice> for &Seq
+                        let mut m: HashMap<&Seq<A>, i64> = HashMap::new();
+                        for (i, &r) in keys.iter().enumerate() {
+                            m.insert(self.regs[r].as_ref().unwrap(), i as i64);
+                        }
+                        self.with_src(&op["q"], &mut |q| m.get(q).copied().unwrap_or(-1))
+                    }
+                    "btree" => {
+                        // an ordered set of owned copies probed by equality
+                        let v: Vec<Seq<A>> = keys.iter().map(|&r| self.regs[r].as_ref().unwrap().clone()).collect();
+                        self.with_src(&op["q"], &mut |q| v.iter().rposition(|k| k == q).map_or(-1, |i| i as i64))
+                    }
+                    o => panic!("harness: mapget via {o}"),
+                };
                 json!({"res": res})
             }
             "cmp" => {
@@ -649,6 +765,14 @@ impl<A: Cx> World<A> {
                     "u8" => lim(u8::from(s) as u128),
                     o => panic!("harness: via {o}"),
                 })
+            }
+            "tointtake" => {
+                // by-value conversion of the register's OWN value (whatever its history left behind);
+                // the register is left empty
+                let r = gu(op, "r");
+                let taken = std::mem::take(self.regs[r].as_mut().unwrap());
+                let u = usize::from(taken);
+                json!({"ok": true, "limbs": kd::limbs_of(u as u128, 1)})
             }
             "intoraw" => {
                 let r = self.regs[gu(op, "r")].as_ref().unwrap();
@@ -848,6 +972,83 @@ impl<A: Cx> World<A> {
                         o => panic!("harness: iterator kind {o}"),
                     }
                     json!({"items": items, "done": done})
+                })
+            }
+            "itmix" => {
+                // advance the iterator by `adv` next() calls, then hand the rest to a consumer that may use
+                // internal iteration (fold / try_fold / nth / size_hint specialisations)
+                let kind = gs(op, "kind");
+                let w = op["w"].as_u64().unwrap_or(0) as usize;
+                let adv = gu(op, "adv");
+                let consumer = gs(op, "consumer");
+                fn consume<T, I: Iterator<Item = T>>(mut it: I, adv: usize, consumer: &str, cap: usize, f: &dyn Fn(T) -> Value) -> Value {
+                    for _ in 0..adv {
+                        if it.next().is_none() {
+                            break;
+                        }
+                    }
+                    let rest: Vec<Value> = match consumer {
+                        "next" => {
+                            let mut v = Vec::new();
+                            for _ in 0..cap {
+                                match it.next() {
+                                    Some(x) => v.push(f(x)),
+                                    None => break,
+                                }
+                            }
+                            v
+                        }
+                        "fold" => it.fold(Vec::new(), |mut v, x| {
+                            v.push(f(x));
+                            v
+                        }),
+                        "for_each" => {
+                            let mut v = Vec::new();
+                            it.for_each(|x| v.push(f(x)));
+                            v
+                        }
+                        "collect" => it.map(|x| f(x)).collect(),
+                        "count" => return json!({"count": it.count()}),
+                        "last" => {
+                            return match it.last() {
+                                Some(x) => json!({"some": true, "item": f(x)}),
+                                None => json!({"some": false}),
+                            }
+                        }
+                        "skip1" => it.skip(1).map(|x| f(x)).collect(),
+                        "step2" => it.step_by(2).map(|x| f(x)).collect(),
+                        "peekable" => {
+                            let mut p = it.peekable();
+                            let _ = p.peek();
+                            p.map(|x| f(x)).collect()
+                        }
+                        "enumerate" => it.enumerate().map(|(_, x)| f(x)).collect(),
+                        "nth1" => {
+                            let mut v = Vec::new();
+                            while let Some(x) = it.nth(1) {
+                                v.push(f(x));
+                                if v.len() > cap {
+                                    break;
+                                }
+                            }
+                            v
+                        }
+                        "take3" => it.take(3).map(|x| f(x)).collect(),
+                        "zip" => it.zip(0..).map(|(x, _)| f(x)).collect(),
+                        o => panic!("harness: consumer {o}"),
+                    };
+                    json!({"items": rest})
+                }
+                self.with_src(&op["x"], &mut |x| {
+                    let cap = x.len() + 8;
+                    match kind {
+                        "iter" => consume(x.iter(), adv, consumer, cap, &|v: A| json!(v.to_bits())),
+                        "rev" => consume(x.rev_iter(), adv, consumer, cap, &|v: A| json!(v.to_bits())),
+                        "windows" => consume(x.windows(w), adv, consumer, cap, &|v: &SeqSlice<A>| view(v)),
+                        "chunks" => consume(x.chunks(w), adv, consumer, cap, &|v: &SeqSlice<A>| view(v)),
+                        "kmers" => kd::kmers_mix(x, w, adv, consumer, cap),
+                        o => panic!("harness: iterator kind {o}"),
+                    }
                 })
             }
             "itnew" => {
